@@ -5,7 +5,7 @@ of the three functions is modelled by hand in coq/ND/Hand/Bessel.v, which refers
 import re, sys, struct, os
 from fractions import Fraction
 SRC = '/repo/src/bessel.rs'
-OUT = os.path.dirname(os.path.abspath(__file__)) + '/../coq/gen/Gen_Bessel.v'
+OUT = os.environ.get('GEN_BESSEL_OUT') or os.path.dirname(os.path.abspath(__file__)) + '/../coq/gen/Gen_Bessel.v'
 
 
 def bits64(x):
@@ -19,11 +19,15 @@ def bits32(x):
         return 0x7f800000 if x > 0 else 0xff800000
 
 
-def flit(tok):
+def rawflit(tok):
     t = tok.replace('_', '')
     q = Fraction(t)
     x = float(t)
-    return '(lit (FLit (%d # %d)%%Q %d %d) : F)' % (q.numerator, q.denominator, bits64(x), bits32(x))
+    return '(FLit (%d # %d)%%Q %d %d)' % (q.numerator, q.denominator, bits64(x), bits32(x))
+
+
+def flit(tok):
+    return '(lit %s : F)' % rawflit(tok)
 
 
 NUM = r'-?[0-9][0-9_]*\.[0-9_]*(?:[eE][-+]?[0-9]+)?|-?[0-9][0-9_]*[eE][-+]?[0-9]+'
@@ -32,16 +36,19 @@ NUM = r'-?[0-9][0-9_]*\.[0-9_]*(?:[eE][-+]?[0-9]+)?|-?[0-9][0-9_]*[eE][-+]?[0-9]
 def main():
     s = open(SRC).read().replace('\r\n', '\n')
     s = re.sub(r'//[^\n]*', '', s)
+    raw = ['', '(* the same tables, constants and literals as raw literals (for the reified programs of Proofs/C14_prog.v) *)']
     out = ['(* gen/Gen_Bessel.v -- written by tools/gen_bessel.py from src/bessel.rs: tables, constants and the numeric literals of each function *)',
            'From Coq Require Import ZArith QArith List. Import ListNotations.', 'From ND Require Import Overload Float.', '',
            'Section Tables.', '  Context {F : Type} {flF : FL F}.']
     for m in re.finditer(r'const\s+(\w+)\s*:\s*f64\s*=\s*(%s)\s*;' % NUM, s):
         out.append('  Definition B_%s : F := %s.' % (m.group(1), flit(m.group(2))))
+        raw.append('Definition BL_%s : flit := %s.' % (m.group(1), rawflit(m.group(2))))
     for m in re.finditer(r'const\s+(\w+)\s*:\s*\[f64;\s*(\d+)\]\s*=\s*\[([^\]]*)\]\s*;', s):
         toks = re.findall(NUM, m.group(3))
         if len(toks) != int(m.group(2)):
             sys.exit('gen_bessel: table %s has %d entries, declared %s' % (m.group(1), len(toks), m.group(2)))
         out.append('  Definition B_%s : list F := [%s].' % (m.group(1), ';\n    '.join(flit(t) for t in toks)))
+        raw.append('Definition BL_%s : list flit := [%s].' % (m.group(1), ';\n  '.join(rawflit(t) for t in toks)))
     # literals per function
     fns = list(re.finditer(r'fn\s+(bessel_j[012])\s*\(', s))
     for i, m in enumerate(fns):
@@ -49,10 +56,12 @@ def main():
         body = s[m.end():end]
         toks = re.findall(NUM, body)
         out.append('  Definition L_%s : list F := [%s].' % (m.group(1), '; '.join(flit(t) for t in toks)))
+        raw.append('Definition LL_%s : list flit := [%s].' % (m.group(1), '; '.join(rawflit(t) for t in toks)))
         # the identifiers used in the body, as a comment, so that a reader sees what the hand model must mention
         ids = sorted(set(re.findall(r'\b([A-Z][A-Z0-9_]+)\b', body)) - {'F'})
         out.append('  (* %s mentions: %s *)' % (m.group(1), ' '.join(ids)))
     out.append('End Tables.')
+    out += raw
     txt = '\n'.join(out) + '\n'
     if not os.path.exists(OUT) or open(OUT).read() != txt:
         open(OUT, 'w').write(txt)
